@@ -23,7 +23,7 @@ func init() {
 			"R19-eofdata — the buffered read helpers report end-of-file only when they collected no bytes; R19-modes — ioOpenFile's mode switch equals the ISO C fopen table (flags per mode from the os package's constants for the analysed GOOS; 'r' not writable, 'w' not readable). " +
 			"R19-buffers — flush gives the read-ahead back (so that a write after read+flush lands at the cursor), seek and setvbuf write buffered output out before they move the file or replace the buffer, lines are read by one helper that ends a line at the newline only and joins pieces longer than the buffer (bufio's ReadLine, which also strips a carriage return and splits long lines, is not called), io.output truncates like fopen(name, w), and a byte count handed to the reader is not negative. NOT decided: the byte-sequence model itself (what is read after which writes).",
 		Trusted: []string{"ISO C fopen mode table (C11 7.21.5.3) written out in the checker"},
-		Rules:   []func(*Ctx){ruleClosed, ruleReconcile, ruleEofData, ruleModes, ruleIoBuffers},
+		Rules:   []func(*Ctx){ruleClosed, ruleReconcile, ruleEofData, ruleModes, ruleIoBuffers, ruleWriterWraps},
 	})
 }
 
@@ -637,25 +637,7 @@ func ruleIoBuffers(c *Ctx) {
 		})
 		c.check(n > 0 && okc && len(flushes) > 0, R, "fileSetVBuf:flushes-the-buffer-it-replaces", p.pos(fn.Pos()), "the old writer is flushed before it is replaced", "setvbuf replaces a buffered writer without flushing it: output written since the last flush is lost")
 	}
-	// one line reader
-	okLines := true
-	who := ""
-	for _, fn := range p.srcFuncs {
-		if fn.Pkg == nil || fn.Pkg.Pkg.Path() != luaPath {
-			continue
-		}
-		allInstrs(fn, func(in ssa.Instruction) {
-			pk, n, ok := stdCall(in)
-			if !ok || pk != "bufio" {
-				return
-			}
-			if n == "Reader.ReadLine" || ((n == "Reader.ReadSlice" || n == "Reader.ReadBytes" || n == "Reader.ReadString") && fname(fn) != "readBufioLine") {
-				okLines = false
-				who = fname(fn) + " calls bufio." + n
-			}
-		})
-	}
-	c.check(okLines, R, "lines:one-reader-ending-at-newline-only", "-", "only readBufioLine reads lines, and not through bufio's ReadLine", who+": bufio.Reader.ReadLine strips a carriage return before the newline and returns lines longer than its buffer in pieces; the line functions must go through readBufioLine (read('*l') of 'ab\\r\\n' is 'ab\\r'; a 5000-byte line is one line)")
+	ruleOneLineReader(c)
 	// io.output truncates
 	if fn := c.need(R, "lua", "ioOutput"); fn != nil {
 		nf := p.Fn("lua", "newFile")
@@ -683,4 +665,30 @@ func ruleIoBuffers(c *Ctx) {
 		}
 		c.check(okc, R, "fileReadAux:count-not-negative", p.pos(fn.Pos()), "the byte count is tested against 0 before the buffer is made", "read(n) hands a negative count to readBufioSize: make([]byte, n) panics ('makeslice: len out of range')")
 	}
+}
+
+// ruleOneLineReader: only readBufioLine reads lines, and not through bufio's ReadLine (which strips a
+// carriage return and returns a line longer than its buffer in pieces). Shared by the io library (C19)
+// and LoadFile's skipping of a first '#' line (C08: a 5000-byte #-line must be skipped whole; C17).
+func ruleOneLineReader(c *Ctx) {
+	const R = "R19-buffers"
+	p := c.P
+	okLines := true
+	who := ""
+	for _, fn := range p.srcFuncs {
+		if fn.Pkg == nil || fn.Pkg.Pkg.Path() != luaPath {
+			continue
+		}
+		allInstrs(fn, func(in ssa.Instruction) {
+			pk, n, ok := stdCall(in)
+			if !ok || pk != "bufio" {
+				return
+			}
+			if n == "Reader.ReadLine" || ((n == "Reader.ReadSlice" || n == "Reader.ReadBytes" || n == "Reader.ReadString") && fname(fn) != "readBufioLine") {
+				okLines = false
+				who = fname(fn) + " calls bufio." + n
+			}
+		})
+	}
+	c.check(okLines, R, "lines:one-reader-ending-at-newline-only", "-", "only readBufioLine reads lines, and not through bufio's ReadLine", who+": bufio.Reader.ReadLine strips a carriage return before the newline and returns lines longer than its buffer in pieces; the line functions must go through readBufioLine (read('*l') of 'ab\\r\\n' is 'ab\\r'; a 5000-byte line is one line)")
 }
